@@ -952,4 +952,36 @@ example : parseProgram (printList false nested2) = some (nested2, []) :=
 example : parseScript (scriptTextLast [nested, []] nested2) = some [nested, [], nested2] :=
   script_roundtrip_unterminated _ _ (by simp [nested2]) ⟨nested_line_ok _, trivial, nested2_eof_ok⟩
 
+/-! ## Round 8: the separator between a function name and `()` is decided by the LAST UNIT of the name
+
+`FunctionDefinition::fmt` writes a blank before `()` when the last unit of the name is an unquoted `$` or a tilde
+expansion whose name ends in `$` — whatever the units before it are (a quoted part, an escape, a parameter…).  A
+printer that asks `to_string_if_literal()` instead agrees on purely literal names only.  The statements below are
+for every prefix; the harness family 9 puts a `$` after every kind of unit and compares the model printer with
+`to_string()` and the printed text with its re-parse. -/
+
+theorem endsWithDollar_last_unit (p : Word) :
+    endsWithDollar (p ++ [.unquoted (.literal '$')]) = true ∧
+    (∀ (n : List Char) (s : Bool), endsWithDollar (p ++ [.tilde (n ++ ['$']) s]) = true) ∧
+    (∀ c : Char, c ≠ '$' → endsWithDollar (p ++ [.unquoted (.literal c)]) = false) := by
+  refine ⟨by simp [endsWithDollar], fun n s => by simp [endsWithDollar], fun c hc => by simp [endsWithDollar, hc]⟩
+
+theorem function_name_dollar_separator (p : Word) (body : CompoundCommand) (rs : List Redir) :
+    printCommand (.function false (p ++ [.unquoted (.literal '$')]) body rs) =
+      printWord p ++ '$' :: ' ' :: '(' :: ')' :: ' ' :: (printCompound body ++ printRedirsSp rs) := by
+  simp [printCommand, (endsWithDollar_last_unit p).1, printWord_append, printWord, printWordUnit, printTextUnit, str]
+
+def fnDollar (p : Word) : List Item :=
+  [it1 (.function false (p ++ [.unquoted (.literal '$')]) (.grouping [it1 (sc ["g"])]) [])]
+
+example : reads (fnDollar [.singleQuote ['f'], .unquoted (.literal 'x')]) = true := by decide +kernel
+example : reads (fnDollar [.doubleQuote [.literal 'a']]) = true := by decide +kernel
+example : reads (fnDollar [.unquoted (.backslashed 'a')]) = true := by decide +kernel
+example : reads (fnDollar [.dollarSingleQuote [.literal 'x']]) = true := by decide +kernel
+example : reads (fnDollar [.unquoted (.rawParam ['x'])]) = true := by decide +kernel
+example : reads (fnDollar [.unquoted (.bracedParam ['x'] .none)]) = true := by decide +kernel
+example : printList false (fnDollar [.singleQuote ['f'], .unquoted (.literal 'x')]) = "'f'x$ () { g; }".toList := by
+  decide +kernel
+
+
 end YashModel.Syntax
